@@ -14,12 +14,14 @@
   * `C01_independent`: the outcome does not depend on the apply mode, the requested rewind
     mode, which void actions are attached, whether rules are visible to the control, or the
     control family.
-  * `C01_complete_core` (Props/C01 part 2, Lemmas/Complete.lean): whenever the formalism derives an
-    outcome for a core grammar, the run terminates (and then returns it, by `C01_sound`).
+  * `C01_complete` (Lemmas/Complete.lean): whenever the formalism derives an outcome for a rule at an
+    offset, the run from there returns, with that outcome — for every table satisfying `WFT`, certified by
+    the grammar analysis or not; `C01_iff`: the runs that return are exactly the derivations.
 -/
 import PegtlVerif.Lemmas.SemRun
 import PegtlVerif.Lemmas.SemDet
 import PegtlVerif.Lemmas.WftCheck
+import PegtlVerif.Lemmas.Complete
 import PegtlVerif.Props.C11
 
 namespace Pegtl.C01
@@ -103,6 +105,31 @@ theorem C01_total (g : Grammar) (hwf : Pegtl.WF g) (h0 : Analyze.problems (Analy
   intro n a m env r h
   exact C01_exact cx wf n i a m env st r o hv h hs
 
+/-- **Completeness.**  Whenever the formalism derives an outcome `o` for rule `i` at the state's offset, the run
+    from that state returns for every sufficiently large fuel — in every apply mode, rewind mode and environment —
+    and what it returns is `o`.  No termination certificate is assumed: the derivation bounds the recursion
+    (through the terminating evaluation `semEvalE_complete` extracts from it). -/
+theorem C01_complete (cx : Ctx) (wf : WFT cx) (i : Nat) (st : St) (hv : Valid cx st) (o : Outcome)
+    (hs : SemC cx st.endp (.ref i) st.cur.pos o) (a : AMode) (m : RMode) (env : Env) :
+    ∃ n r, (∀ n', n ≤ n' → run cx n' i a m env st = some r) ∧ absO r = some o :=
+  Complete.run_complete cx wf i st hv o hs a m env
+
+/-- Soundness and completeness together: the outcomes of returning runs are exactly the outcomes the formalism derives. -/
+theorem C01_iff (cx : Ctx) (wf : WFT cx) (i : Nat) (st : St) (hv : Valid cx st) (o : Outcome)
+    (a : AMode) (m : RMode) (env : Env) :
+    (∃ n r, run cx n i a m env st = some r ∧ absO r = some o) ↔ SemC cx st.endp (.ref i) st.cur.pos o := by
+  constructor
+  · rintro ⟨n, r, h, ha⟩
+    obtain ⟨o', ho', s'⟩ := run_sem cx wf n i a m env st r hv h
+    rw [ha] at ho'; cases ho'; exact s'
+  · intro hs
+    obtain ⟨n, r, hr, ha⟩ := C01_complete cx wf i st hv o hs a m env
+    exact ⟨n, r, hr n (Nat.le_refl _), ha⟩
+
+/-- The spec evaluator used as the oracle of the differential run decides the formalism. -/
+theorem C01_evaluator_decides (cx : Ctx) (endp : Nat) (e : PExp) (p : Nat) (o : Outcome) :
+    SemC cx endp e p o ↔ ∃ f, semEvalE (Gof cx.g) cx.eol cx.inp f endp e p = some o := sem_iff_eval
+
 /-! ### Non-vacuity: a recursive grammar that meets the hypotheses, and a run that the theorems apply to -/
 
 /-- `S = sor< seq< a, S, b >, seq< a, b > >` (aⁿbⁿ), `T = seq< S, not_at< any > >`, with a void
@@ -151,5 +178,34 @@ example (inp : Array UInt8) : ∃ o, SemC { g := exG, inp := inp } inp.size (.re
   have hv : Valid cx cx.start := ⟨by simp [Ctx.start], by simp [Ctx.start]⟩
   let ⟨o, ho, _⟩ := C01_total exG (by decide) (by decide) cx rfl wf 5 (by decide) cx.start hv
   ⟨o, by simpa [Ctx.start] using ho⟩
+
+/-- `star< seq< not_at< b >, sor< a, success > > >`: rejected by the grammar analysis (the star's body can succeed
+    without consuming: it loops on "a"), so `C01_total` says nothing about it — yet on "ab" the formalism derives
+    "matches one byte", and `C01_complete` gives termination of every run on that input. -/
+def loopG : Grammar := #[
+  ⟨true, {}, .starPartial [1]⟩,
+  ⟨true, {}, .seq [2, 3]⟩,
+  ⟨true, {}, .notAt 4⟩,
+  ⟨true, {}, .sor [5, 6]⟩,
+  ⟨true, {}, .atom (.one true [98])⟩,
+  ⟨true, {}, .atom (.one true [97])⟩,
+  ⟨true, {}, .atom .success⟩]
+
+def loopCx : Ctx := { g := loopG, inp := #[97, 98] }
+
+example : Analyze.problems (Analyze.abstract loopG) ≠ 0 := by decide
+
+example : ∀ a m env, ∃ n r, (∀ n', n ≤ n' → run loopCx n' 0 a m env loopCx.start = some r) ∧ absO r = some (.ok 1) := by
+  have wf : WFT loopCx := wftCheck_sound (by decide)
+  have hv : Valid loopCx loopCx.start := ⟨by decide, by decide⟩
+  have hs : SemC loopCx 2 (.ref 0) 0 (.ok 1) := by
+    have h : ∃ r, run loopCx 12 0 .action .required {} loopCx.start = some r ∧ r.res = .ok ∧ r.st.cur.pos = 1 := by
+      decide
+    obtain ⟨r, hr, hok, hp⟩ := h
+    have := C01_sound loopCx wf 12 0 .action .required {} loopCx.start r hv hr
+    rw [hok] at this
+    rw [hp] at this
+    exact this
+  exact fun a m env => C01_complete loopCx wf 0 loopCx.start hv (.ok 1) hs a m env
 
 end Pegtl.C01
